@@ -330,40 +330,115 @@ func ruleR10c(c *Check, li *lockerInfo) {
 	if exec == nil {
 		return
 	}
+	isRet := func(in ssa.Instruction) bool { _, r := in.(*ssa.Return); return r }
+	skip := atomDerivedFrom(c, "true", fk("config.WorkspaceConfig", "SkipWorkspaceLock"))
 	for _, fn := range c.G.CallerFuncs(exec) {
 		fname := c.P.FuncName(fn)
 		locks := callsToFn(c, fn, li.Lock)
+		// the acquisition may be wrapped: a helper of the command that locks (or honours
+		// skip_workspace_lock) and hands back the release function
+		var helper *ssa.Function
+		var helperSite ssa.CallInstruction
 		if len(locks) == 0 {
+			for _, s := range engine.SitesIn(fn) {
+				call, ok := s.(*ssa.Call)
+				if !ok {
+					continue
+				}
+				if h := call.Call.StaticCallee(); h != nil && len(h.Blocks) > 0 && len(callsToFn(c, h, li.Lock)) > 0 {
+					helper, helperSite = h, s
+				}
+			}
+		}
+		if len(locks) == 0 && helper == nil {
 			c.Bad("R10c", "lock-before-execute/"+fname, "the executor is started without acquiring the workspace lock", c.P.Pos(fn.Pos()))
 			continue
 		}
+		lockFn := fn // the function that contains the Lock call
+		if helper != nil {
+			lockFn = helper
+			locks = callsToFn(c, helper, li.Lock)
+		}
 		lk := locks[0]
-		skip := atomDerivedFrom(c, "true", fk("config.WorkspaceConfig", "SkipWorkspaceLock"))
 		bad := ""
 		for _, e := range callsToFn(c, fn, exec) {
-			if r, _ := engine.PathExists(fn, nil, engine.IsInstr(e), engine.PathQuery{CutInstr: engine.IsInstr(lk), CutEdge: engine.CutEdgesWhere(skip)}); r {
-				bad = "the executor can start without the lock although skip_workspace_lock is not set"
+			if helper == nil {
+				if r, _ := engine.PathExists(fn, nil, engine.IsInstr(e), engine.PathQuery{CutInstr: engine.IsInstr(lk), CutEdge: engine.CutEdgesWhere(skip)}); r {
+					bad = "the executor can start without the lock although skip_workspace_lock is not set"
+				}
+				if r, _ := engine.PathExists(fn, lk, engine.IsInstr(e), engine.PathQuery{CutEdge: engine.NilErrEdgesOf(lk), CutInstr: isNoReturnCall}); r {
+					bad = "the executor can start although acquiring the lock failed"
+				}
+				continue
 			}
-			if r, _ := engine.PathExists(fn, lk, engine.IsInstr(e), engine.PathQuery{CutEdge: engine.NilErrEdgesOf(lk), CutInstr: isNoReturnCall}); r {
-				bad = "the executor can start although acquiring the lock failed"
+			// the helper call dominates Execute, and the helper returns only with the lock held or on the skip branch
+			if r, _ := engine.PathExists(fn, nil, engine.IsInstr(e), engine.PathQuery{CutInstr: engine.IsInstr(helperSite), CutEdge: engine.CutEdgesWhere(skip), Shallow: true}); r {
+				bad = "the executor can start without passing the lock-acquiring helper although skip_workspace_lock is not set"
+			}
+			if r, _ := engine.PathExists(helper, nil, isRet, engine.PathQuery{CutInstr: engine.IsInstr(lk), CutEdge: engine.CutEdgesWhere(skip), Shallow: true}); r {
+				bad = "the lock-acquiring helper can return without the lock although skip_workspace_lock is not set"
+			}
+			if r, _ := engine.PathExists(helper, lk, isRet, engine.PathQuery{CutEdge: engine.NilErrEdgesOf(lk), CutInstr: isNoReturnCall, Shallow: true}); r {
+				bad = "the lock-acquiring helper returns normally although acquiring the lock failed: the executor would start"
 			}
 		}
 		c.Require(bad == "", "R10c", "lock-before-execute/"+fname, "Execute is dominated by a successful Lock (or by skip_workspace_lock)", bad, c.P.InstrPos(lk))
 		// failing lock is fatal
-		isRet := func(in ssa.Instruction) bool { _, r := in.(*ssa.Return); return r }
-		r, _ := engine.PathExists(fn, lk, isRet, engine.PathQuery{CutEdge: engine.NilErrEdgesOf(lk), CutInstr: isNoReturnCall})
+		r, _ := engine.PathExists(lockFn, lk, isRet, engine.PathQuery{CutEdge: engine.NilErrEdgesOf(lk), CutInstr: isNoReturnCall, Shallow: true})
 		c.Require(!r, "R10c", "failed-lock-is-fatal/"+fname, "a failed or cancelled Lock ends in Fatalf/os.Exit", "after a failed or cancelled Lock the command returns normally: deferred functions (the lock release!) still run, and a waiter that never held the lock deletes the holder's lock file", c.P.InstrPos(lk))
 		// the release is registered only after success
-		rel := sitesReaching(c, fn, fnSet(li.Unlock))
-		okRel := len(rel) > 0
-		for _, s := range rel {
-			if _, isDefer := s.(*ssa.Defer); !isDefer {
-				continue
+		okRel := false
+		if helper == nil {
+			rel := sitesReaching(c, fn, fnSet(li.Unlock))
+			okRel = len(rel) > 0
+			for _, s := range rel {
+				if _, isDefer := s.(*ssa.Defer); !isDefer {
+					continue
+				}
+				if r, _ := engine.PathExists(fn, nil, engine.IsInstr(s), engine.PathQuery{CutInstr: engine.IsInstr(lk)}); r {
+					okRel = false
+				}
+				if r, _ := engine.PathExists(fn, lk, engine.IsInstr(s), engine.PathQuery{CutEdge: engine.NilErrEdgesOf(lk), CutInstr: isNoReturnCall}); r {
+					okRel = false
+				}
 			}
-			if r, _ := engine.PathExists(fn, nil, engine.IsInstr(s), engine.PathQuery{CutInstr: engine.IsInstr(lk)}); r {
-				okRel = false
+		} else {
+			// the helper hands back the release: a function literal that unlocks, created only after Lock
+			// returned nil, and the caller defers what the helper returned
+			var releases []ssa.Instruction
+			for _, b := range helper.Blocks {
+				for _, in := range b.Instrs {
+					mc, ok := in.(*ssa.MakeClosure)
+					if !ok {
+						continue
+					}
+					if lit, ok := mc.Fn.(*ssa.Function); ok && c.G.ReachableFuncs([]*ssa.Function{lit}, nil)[li.Unlock] {
+						releases = append(releases, mc)
+					}
+				}
 			}
-			if r, _ := engine.PathExists(fn, lk, engine.IsInstr(s), engine.PathQuery{CutEdge: engine.NilErrEdgesOf(lk), CutInstr: isNoReturnCall}); r {
+			okRel = len(releases) > 0
+			for _, mc := range releases {
+				if r, _ := engine.PathExists(helper, nil, engine.IsInstr(mc), engine.PathQuery{CutInstr: engine.IsInstr(lk), Shallow: true}); r {
+					okRel = false
+				}
+				if r, _ := engine.PathExists(helper, lk, engine.IsInstr(mc), engine.PathQuery{CutEdge: engine.NilErrEdgesOf(lk), CutInstr: isNoReturnCall, Shallow: true}); r {
+					okRel = false
+				}
+			}
+			deferred := false
+			for _, s := range engine.SitesIn(fn) {
+				d, isDefer := s.(*ssa.Defer)
+				if !isDefer {
+					continue
+				}
+				for _, o := range engine.Origins(d.Call.Value) {
+					if call, _ := engine.CallOf(o); call == helperSite {
+						deferred = true
+					}
+				}
+			}
+			if !deferred {
 				okRel = false
 			}
 		}
